@@ -82,6 +82,9 @@ class Parent(AbstractParent):
         location_parent_type = location.parent_type if location is not None else None
         sequence_seqtype = sequence.sequence_type if sequence is not None else None
         seq_type = _unique_value_or_none((sequence_type, location_parent_type, sequence_seqtype))
+        # "chromosome" and SequenceType.CHROMOSOME are equal and hash alike, so which of the two the caches above hand back
+        # depends on what was asked first; always answer with the canonical member
+        seq_type = SequenceType.sequence_type_str_to_type(seq_type)
 
         if location is not None:
             if strand and location.strand and strand is not location.strand:
